@@ -542,17 +542,92 @@ def Failure_(key, desc, case):
     return Failure(key, desc, case, 'oracle')
 
 
+def evaluate_cli_3mr(ctx: Ctx, specs):
+    """the ranking as the user gets it: `python -m outrank --task ranking --heuristic MI-numba-3mr` (fresh process) on a small CSV
+    whose feature names sort before AND after the label's; `3mr_ranks.tsv` must list every feature exactly once with ranks 1..n
+    in list order and start with a feature of maximal relevance (= maximal score against the label in pairwise_ranks.tsv)."""
+    import csv
+    import os
+    import random
+    import shutil
+    import subprocess
+    import sys
+    import tempfile
+
+    from vp_common import REPO
+    for spec in specs:
+        r = random.Random(f'cli3mr:{spec["seed"]}')
+        feats = r.sample(['age', 'city', 'price', 'zone', 'f1', 'null', 'Zip', 'user id'], spec['k'])
+        label = spec['label']
+        n = 1500
+        y = [r.randrange(2) for _ in range(n)]
+        cols = {f: [str((yy * r.randrange(j + 2) + r.randrange(3)) % (j + 3)) for yy in y] for j, f in enumerate(feats)}
+        names = feats[:]
+        names.insert(r.randrange(len(names) + 1), label)
+        d = tempfile.mkdtemp(prefix='c17cli_')
+        ctx.evaluations += 1
+        ctx.count('cli-3mr-ranking')
+        try:
+            with open(os.path.join(d, 'data.csv'), 'w', newline='') as fh:
+                w = csv.writer(fh)
+                w.writerow(names)
+                for i in range(n):
+                    w.writerow([str(y[i]) if c == label else cols[c][i] for c in names])
+            out = os.path.join(d, 'out')
+            env = dict(os.environ, PYTHONPATH=REPO, PYTHONHASHSEED='0')
+            p = subprocess.run([sys.executable, '-m', 'outrank', '--task', 'ranking', '--data_path', d, '--data_source', 'csv-raw', '--heuristic', 'MI-numba-3mr',
+                                '--label_column', label, '--subsampling', '1', '--minibatch_size', '2000', '--num_threads', '1',
+                                '--include_cardinality_in_feature_names', 'False', '--output_folder', out, '--disable_tqdm', 'True'],
+                               cwd=d, env=env, stdout=subprocess.PIPE, stderr=subprocess.STDOUT, timeout=900)
+            show = f'CLI 3MR ranking of a {n}-row csv with columns {names} (label {label!r})'
+            path = os.path.join(out, '3mr_ranks.tsv')
+            if not os.path.exists(path):
+                ctx.oracle_fail('cli-3mr-missing', f'{show}: no 3mr_ranks.tsv (exit {p.returncode}): {p.stdout.decode("utf-8", "replace")[-300:]}', {'cli_3mr': spec})
+                continue
+            with open(path, newline='', encoding='utf-8') as fh:
+                recs = list(csv.reader(fh, delimiter='\t'))
+            hdr, body = recs[0], recs[1:]
+            fi, ri = hdr.index('Feature'), hdr.index('3MR_Ranking')
+            listed = [x[fi] for x in body]
+            ranks = [int(float(x[ri])) for x in body]
+            rel = {}
+            with open(os.path.join(out, 'pairwise_ranks.tsv'), newline='', encoding='utf-8') as fh:
+                for a, b, sc in list(csv.reader(fh, delimiter='\t'))[1:]:
+                    if b == label and a != label:
+                        rel[a] = float(sc)
+            bad = None
+            if sorted(listed) != sorted(feats):
+                bad = f'3mr_ranks.tsv lists {listed}; the features are {sorted(feats)}'
+            elif ranks != list(range(1, len(feats) + 1)):
+                bad = f'ranks {ranks} are not 1..{len(feats)} in list order'
+            elif rel and rel.get(listed[0], float("-inf")) < max(rel.values()) - 1e-12:
+                bad = f'the list starts with {listed[0]!r} (score against the label {rel.get(listed[0])}), the maximal relevance is {max(rel.values())} ({max(rel, key=rel.get)!r})'
+            if bad:
+                ctx.oracle_fail('cli-3mr', f'{show}: {bad}', {'cli_3mr': spec})
+        finally:
+            shutil.rmtree(d, ignore_errors=True)
+
+
+def cli_3mr_specs(rng, n):
+    return [{'seed': rng.randrange(10 ** 9), 'k': rng.choice([3, 4, 5]), 'label': rng.choice(['label', 'label', 'click', 'target'])} for _ in range(n)]
+
+
 def run(ctx: Ctx):
     n = 5000 if ctx.thorough() else 500
     evaluate(ctx, corpus() + [gen_case(ctx.rng, ctx.thorough()) for _ in range(n)])
+    evaluate_cli_3mr(ctx, cli_3mr_specs(ctx.rng, 4 if ctx.thorough() else 1))
 
 
 def search(ctx: Ctx):
     sub = Ctx(ctx.prop, ctx.tier)
     sub.rng.seed(f'search:{ctx.seed}')
     evaluate(sub, [gen_case(sub.rng, True) for _ in range(2500)], oracle_only=True)
+    evaluate_cli_3mr(sub, cli_3mr_specs(sub.rng, 3))
     return sub.oracle_failures
 
 
 def replay(ctx: Ctx, payload):
+    if isinstance(payload['case'], dict) and 'cli_3mr' in payload['case']:
+        evaluate_cli_3mr(ctx, [payload['case']['cli_3mr']])
+        return
     evaluate(ctx, [payload['case']])
